@@ -196,7 +196,14 @@ pub fn run(prop: &str, path: &str) -> i32 {
                     }
                 }
                 "C12" => super::search::c12_check_root(&root, &h, 50_000_000, false, &mut acc),
-                "C10" => super::c10::c10_check_root(&root, depth, false, &mut acc),
+                "C10" => {
+                    if case.get("sub").and_then(|x| x.as_str()) == Some("line-repetition") {
+                        let (refv, last) = super::c10::check_line_repetition_root(&root, "replay", &h, &mut acc);
+                        println!("reference values by depth: {:?}\nlast score of each depth of the real search: {:?}", refv, last);
+                    } else {
+                        super::c10::c10_check_root(&root, depth, false, &mut acc)
+                    }
+                }
                 "C11" => {
                     let cl = super::c11::classify(&root.hist.end);
                     super::c11::check_root(&root, &cl, depth, &h, &mut acc, false);
@@ -253,6 +260,18 @@ pub fn run(prop: &str, path: &str) -> i32 {
             }
         }
         "session" | "eof" | "transcript_line" => {
+            // the black-box clause of C11 depends on where a 1-20 ms deadline falls: the recorded
+            // script is repeated until the violation shows again (up to 60 sessions)
+            if prop == "C11" {
+                for attempt in 1..=60 {
+                    let rc = replay_session(prop, path, &case);
+                    if rc != 0 {
+                        println!("(attempt {})", attempt);
+                        return rc;
+                    }
+                }
+                return 0;
+            }
             return replay_session(prop, path, &case);
         }
         "pipelined" => {
@@ -296,7 +315,11 @@ fn finish(prop: &str, path: &str, acc: Acc) -> i32 {
 /// Best effort: send the recorded script to a fresh engine (same build / failpoints), check
 /// every go for exactly one legal bestmove (or a null move on terminal roots).
 fn replay_session(prop: &str, path: &str, case: &Value) -> i32 {
-    let script = strs(case, "script");
+    let mut script = strs(case, "script");
+    // cases recorded as bare [position, go ...] start after the handshake
+    if !script.is_empty() && script[0] != "uci" {
+        script.insert(0, "uci".into());
+    }
     if script.is_empty() {
         println!("INCONCLUSIVE no script recorded in {}", path);
         return 2;
@@ -345,7 +368,23 @@ fn replay_session(prop: &str, path: &str, case: &Value) -> i32 {
                             }
                         } else {
                             match parse_mv(&text) {
-                                Some(m) if legal.contains(&m) => cur = Some(apply(p, m)),
+                                Some(m) if legal.contains(&m) => {
+                                    if prop == "C11" {
+                                        // the move played under a short slice, judged as in the check
+                                        let mut sv = Solver::new(400_000);
+                                        let mate1 = sv.mate_in(p, 1) == Some(true);
+                                        let losing: Vec<Mv> = if mate1 { vec![] } else { legal.iter().copied().filter(|x| sv.mate_in(&apply(p, *x), 1) == Some(true)).collect() };
+                                        let losing = if losing.len() == legal.len() { vec![] } else { losing };
+                                        let plan = plan_for(line, p.stm).unwrap_or(0) as u64;
+                                        let from = eng.transcript.iter().rposition(|e| e.dir == bb::Dir::Sent && &e.line == line).unwrap_or(0);
+                                        let infos: Vec<String> = eng.transcript[from..=i].iter().filter(|e| e.dir == bb::Dir::Out && e.line.starts_with("info")).map(|e| e.line.clone()).collect();
+                                        if let (_, Some(why)) = super::timed::c11_judge_played(p, mate1, &losing, plan, &infos, m) {
+                                            println!("  violation: {}", why);
+                                            bad += 1;
+                                        }
+                                    }
+                                    cur = Some(apply(p, m))
+                                }
                                 _ => {
                                     println!("  violation: '{}' on {} answered '{}' (not legal)", line, p.to_fen(), text);
                                     bad += 1;
